@@ -58,7 +58,7 @@ static Bytes gen_name(Rng &r, const GenKnobs &k, const std::vector<Bytes> &exist
             else n.push_back(alpha_byte(r, k.alphabet));
         } else {
             GenKnobs kk = k;
-            if (r.chance(9, 10)) kk.long_strings = 0;
+            if (r.chance(3, 4)) kk.long_strings = 0;       // names take part in the length boundaries too (2- and 4-byte length prefixes)
             n = gen_bytes(r, kk, 4);
         }
         if (!k.names_nul) for (auto &c : n) if (c == 0) c = 'z';
